@@ -149,4 +149,149 @@ theorem container_fields (glyph : Layers.Str → Layers.Str → P.Glyph) (S : La
 
 end containers
 
+/-! ## source-level tie: the extracted gate table of the glif writer IS the gate table of the model encoder
+
+`Generated.RoundTrip.glifWriter` (from `src/glyph/serialize.rs`) names, per element and attribute, the value
+at which the attribute is omitted.  `probe` evaluates the model encoder of C02 (`Model/GlifWrite.lean`) on an element
+holding that value (the attribute must be absent) and on one holding another value (it must be present). -/
+
+namespace Source
+open Glif Generated.RoundTrip
+
+def PF : Fmt := { shw := fun _ => ['0'], fmt3 := fun _ => "0.000".toList, indent := [] }
+def has (k : String) (as : List Attr) : Bool := as.any (fun a => a.1 == k.toList)
+
+def pt0 : Point := { x := 0, y := 0, typ := .line, smooth := true, name := some ['n'], ident := some ['i'] }
+def an0 : Anchor := { x := 0, y := 0, name := some ['n'], color := some ⟨0, 0, 0, 0⟩, ident := some ['i'] }
+def gd0 : Guideline := { line := .angle 0 0 0, name := some ['n'], color := some ⟨0, 0, 0, 0⟩, ident := some ['i'] }
+/-- every coefficient away from its identity value -/
+def tr0 : Transform := { xScale := 0, xyScale := f64One, yxScale := f64One, yScale := 0, xOffset := f64One, yOffset := f64One }
+def cp0 : Component := { base := ['b'], transform := tr0, ident := some ['i'] }
+def im0 : Image := { fileName := ['f'], color := some ⟨0, 0, 0, 0⟩, transform := tr0 }
+
+/-- the transform with the coefficient `a` at the value `v` named by the table (`0` / `1`) -/
+def trAt (a v : String) : Transform :=
+  let b : Nat := if v == "1" then f64One else 0
+  match a with
+  | "xScale" => { tr0 with xScale := b } | "xyScale" => { tr0 with xyScale := b } | "yxScale" => { tr0 with yxScale := b }
+  | "yScale" => { tr0 with yScale := b } | "xOffset" => { tr0 with xOffset := b } | _ => { tr0 with yOffset := b }
+
+def isCoeff (a : String) : Bool := ["xScale", "xyScale", "yxScale", "yScale", "xOffset", "yOffset"].contains a
+
+/-- does the model encoder omit `attr` of `elem` exactly at `omitted` (and write it otherwise)? -/
+def probe (w : WRow) : Bool :=
+  let a := w.attr
+  let om := w.omitted
+  match w.elem with
+  | "point" =>
+    has a (pointAttrs PF pt0) &&
+    (match a, om with
+     | "name", "none" => !has a (pointAttrs PF { pt0 with name := none })
+     | "identifier", "none" => !has a (pointAttrs PF { pt0 with ident := none })
+     | "smooth", "false" => !has a (pointAttrs PF { pt0 with smooth := false })
+     | "type", "offcurve" => !has a (pointAttrs PF { pt0 with typ := .off, smooth := false }) &&
+         [C11.PT.move, .line, .curve, .qcurve].all (fun t => has a (pointAttrs PF { pt0 with typ := t }))
+     | "x", "-" => true | "y", "-" => true
+     | _, _ => false)
+  | "anchor" =>
+    has a (anchorAttrs PF an0) &&
+    (match a, om with
+     | "name", "none" => !has a (anchorAttrs PF { an0 with name := none })
+     | "color", "none" => !has a (anchorAttrs PF { an0 with color := none })
+     | "identifier", "none" => !has a (anchorAttrs PF { an0 with ident := none })
+     | "x", "-" => true | "y", "-" => true
+     | _, _ => false)
+  | "guideline" =>
+    has a (guidelineAttrs PF gd0) &&
+    (match a, om with
+     | "name", "none" => !has a (guidelineAttrs PF { gd0 with name := none })
+     | "color", "none" => !has a (guidelineAttrs PF { gd0 with color := none })
+     | "identifier", "none" => !has a (guidelineAttrs PF { gd0 with ident := none })
+     | "x", "none" => !has a (guidelineAttrs PF { gd0 with line := .horizontal 0 })
+     | "y", "none" => !has a (guidelineAttrs PF { gd0 with line := .vertical 0 })
+     | "angle", "none" => !has a (guidelineAttrs PF { gd0 with line := .vertical 0 })
+     | _, _ => false)
+  | "component" =>
+    has a (componentAttrs PF cp0) &&
+    (if isCoeff a then (om == "0" || om == "1") && !has a (componentAttrs PF { cp0 with transform := trAt a om })
+     else match a, om with
+       | "base", "-" => true
+       | "identifier", "none" => !has a (componentAttrs PF { cp0 with ident := none })
+       | _, _ => false)
+  | "image" =>
+    has a (imageAttrs PF im0) &&
+    (if isCoeff a then (om == "0" || om == "1") && !has a (imageAttrs PF { im0 with transform := trAt a om })
+     else match a, om with
+       | "fileName", "-" => true
+       | "color", "none" => !has a (imageAttrs PF { im0 with color := none })
+       | _, _ => false)
+  | "contour" =>
+    (match a, om with
+     | "identifier", "none" =>
+       (match contourEvs PF { points := [], ident := some ['i'] }, contourEvs PF { points := [], ident := none } with
+        | .start _ (some as1) :: _, .start _ (some as0) :: _ => has a as1 && !has a as0
+        | _, _ => false)
+     | _, _ => false)
+  | "advance" =>
+    has a (advanceAttrs PF f64One f64One) &&
+    (match a, om with
+     | "width", "0" => !has a (advanceAttrs PF 0 f64One)
+     | "height", "0" => !has a (advanceAttrs PF f64One 0)
+     | _, _ => false)
+  | "unicode" =>
+    (match a, om, encodeGlif PF { name := ['g'], codepoints := [65] } with
+     | "hex", "-", _ :: _ :: .empty n (some as) :: _ => n == sUnicode && has a as
+     | _, _, _ => false)
+  | "glyph" =>
+    (match om, encodeGlif PF { name := ['g'] } with
+     | "-", _ :: .start n (some as) :: _ => n == sGlyph && has a as
+     | _, _ => false)
+  | _ => false
+
+def evName : Ev → Option Str
+  | .start n _ => some n
+  | .empty n _ => some n
+  | .startLib _ _ => some sLib
+  | _ => none
+
+def hasEv (n : Str) (g : Glyph) : Bool := (encodeGlif PF g).any (fun e => evName e == some n)
+
+def g0 : Glyph := { name := ['g'] }
+
+/-- does the model encoder leave the element out exactly under the extracted gate? -/
+def probeElement (r : String × String) : Bool :=
+  match r.1, r.2 with
+  | "advance", "neither-normal" =>
+    !hasEv sAdvance g0 && hasEv sAdvance { g0 with width := f64One } && hasEv sAdvance { g0 with height := f64One } &&
+    !hasEv sAdvance { g0 with width := 1, height := 0x7FF0000000000000 }
+  | "image", "none" => !hasEv sImage g0 && hasEv sImage { g0 with image := some im0 }
+  | "lib", "empty" => !hasEv sLib g0 && hasEv sLib { g0 with lib := [(['k'], PV.atom "b1")] }
+  | "note", "none" => !hasEv sNote g0 && hasEv sNote { g0 with note := some ['n'] }
+  | "outline", "both-empty" =>
+    !hasEv sOutline g0 && hasEv sOutline { g0 with components := [cp0] } &&
+    hasEv sOutline { g0 with contours := [{ points := [pt0], ident := none }] }
+  | "contour", "each" => !hasEv sContour g0 && hasEv sContour { g0 with contours := [{ points := [pt0], ident := none }] }
+  | "component", "each" => !hasEv sComponent g0 && hasEv sComponent { g0 with components := [cp0] }
+  | "anchor", "each" => !hasEv sAnchor g0 && hasEv sAnchor { g0 with anchors := [an0] }
+  | "guideline", "each" => !hasEv sGuideline g0 && hasEv sGuideline { g0 with guidelines := [gd0] }
+  | "unicode", "each" => !hasEv sUnicode g0 && hasEv sUnicode { g0 with codepoints := [65] }
+  | _, _ => false
+
+end Source
+
+open Generated.RoundTrip Source in
+/-- **the gate table read from `serialize.rs` equals the gates of the model encoder** (`Glif.pointAttrs`,
+    `anchorAttrs`, `guidelineAttrs`, `componentAttrs`, `imageAttrs`, `contourEvs`, `advanceAttrs`,
+    `encodeGlif`): every row is confirmed by evaluating the encoder at the omitted value and away from it -/
+theorem source_glif_gates_match_model_encoder : glifWriter.all probe = true := by decide +kernel
+
+open Generated.RoundTrip Source in
+/-- the same for whole elements (advance, image, outline, lib, note, the lists) -/
+theorem source_glif_element_gates_match_model_encoder : glifElementGates.all probeElement = true := by
+  decide +kernel
+
+open Generated.RoundTrip in
+/-- the table is complete for the model: 39 attribute rows (every attribute the encoder can write) -/
+theorem source_glif_writer_table_size : glifWriter.length = 39 ∧ glifElementGates.length = 10 := by decide
+
 end RT.Bridge
